@@ -342,7 +342,8 @@ func ruleNamesOrder(c *Check, r *Repo) {
 func expressionTypes(c *Check, r *Repo) {
 	known := map[string]bool{}
 	for _, t := range []string{"TypeRule", "TypeName", "TypeDot", "TypeCharacter", "TypeRange", "TypePredicate", "TypeStateChange", "TypeAction", "TypeAlternate", "TypeUnorderedAlternate", "TypeSequence", "TypePeekFor", "TypePeekNot", "TypeQuery", "TypeStar", "TypePlus", "TypePush", "TypeImplicitPush", "TypeNil",
-		"TypePackage", "TypeImport", "TypePeg", "TypeState", "TypeSpace", "TypeComment"} {
+		"TypePackage", "TypeImport", "TypePeg", "TypeState", "TypeSpace", "TypeComment",
+		"TypeUnknown" /* a dropped duplicate definition: top level only, skipped by every loop over the rule list (C15 R-duplicate) */} {
 		known[t] = true
 	}
 	made := constructedTypes(r)
